@@ -22,6 +22,29 @@ import (
 // EntryFunc is the message-handling entry point of displayrtcm3 and rtcmfilter.
 type EntryFunc func(startTime time.Time, reader io.Reader, writer io.Writer, config *jsonconfig.Config)
 
+// nearMidnight draws the moment at which the program of a run starts: mostly
+// right away (the bubble's clock starts at midnight, so the daily files never
+// roll over in a short run), now and then a few seconds before the next
+// midnight, so that the daily writer's rotation happens while data flows.
+// The returned function is called inside the run, before the program starts.
+func nearMidnight(t *rt.Tape, o *hx.Outcome) func() {
+	if t.SW(9, 1) == 0 {
+		return func() {}
+	}
+	off := []time.Duration{-5 * time.Second, -700 * time.Millisecond, -time.Millisecond, 0, 2 * time.Second}[t.S(5)]
+	o.Fault("clock:start-just-before-midnight")
+	return func() {
+		now := time.Now()
+		next := time.Date(now.Year(), now.Month(), now.Day()+1, 0, 0, 0, 0, now.Location())
+		// (in steps shorter than the scheduler's idle horizon, which would take a
+		// single day-long sleep for a deadlock)
+		for left := next.Sub(now) + off; left > 0; left -= 6 * time.Hour {
+			time.Sleep(min(left, 6*time.Hour))
+			rt.Yield("waiting for the evening")
+		}
+	}
+}
+
 // diskProbes records what the simulated disk did in a run.
 func diskProbes(o *hx.Outcome, d *env.Disk) {
 	if !rt.DiskSeamPresent.Load() {
@@ -261,7 +284,9 @@ func C10(entry EntryFunc) func(*hx.Ctx) *hx.Outcome {
 		s.Budget = 300*(len(wire)+32) + 30000 + 40*nMsgs
 		returned := false
 		atReturn := -1
+		preStart := nearMidnight(t, o)
 		verdict := s.Run(func() {
+			preStart()
 			entry(startTime, src, sink, &cfg)
 			returned = true
 			atReturn = len(sink.Buf)
@@ -465,7 +490,9 @@ func C16(start func(cfg *lcfg.Config)) func(*hx.Ctx) *hx.Outcome {
 		returned := false
 		var atExit []byte
 		nAtExit := 0
+		preStart := nearMidnight(t, o)
 		verdict := s.Run(func() {
+			preStart()
 			start(cfg)
 			returned = true
 			// the process exits here: what is in the record file now is what survives
